@@ -344,7 +344,8 @@ def call_request(case, sb, args, kwargs):
         text = repr(v)
         try:
             parsed = ast.literal_eval(text)
-            literal = type(parsed) is type(v) and bool(parsed == v)
+            # CPython's fact: the text evaluates to the same value, the same types all the way down
+            literal = type(parsed) is type(v) and bool(parsed == v) and ref.describe(parsed) == ref.describe(v)
         except Exception:       # noqa
             literal = False
         if literal:
@@ -713,6 +714,8 @@ def search(rng, tier, broken, corr):
         r = by_code[id(c)]
         if "timeout" in r or "harness_error" in r:
             continue
+        if ADDRESS.search(sc.plain_text(r["events"])) or ADDRESS.search(p["out"]):
+            continue        # a default repr was printed: the text differs between any two processes
         ro = r["outcome"]
         if ro and ro[0] == "RecursionError":
             ro = [ro[0], None]
